@@ -292,15 +292,20 @@ kproof!(cut, 8, fn c14_t_range_one_arg() {
 });
 
 // ------------------------------------------------------------------------------ chunk / flatten
+// chunk sizes are concrete per path (a free 64-bit divisor inside slice::chunks defeats the solver)
 kproof!(cut, 6, fn c14_t_flatten_chunk_roundtrip() {
     let (a, b): (f64, f64) = (kani::any(), kani::any());
-    let k = any_int(3);
-    kani::assume(k >= 1.0);
     let l = arena::list_cell(vec![n(a), n(b)]);
     let heap = arena::heap();
-    let ch = ok(call_bi(BuiltInFunction::Chunk, av![l, n(k)], &heap));
-    // number of chunks = ceil(2 / k)
-    let want_chunks = if k == 1.0 { 2 } else { 1 };
+    let k: u8 = kani::any();
+    kani::assume(k >= 1 && k <= 3);
+    let (ch, want_chunks) = if k == 1 {
+        (ok(call_bi(BuiltInFunction::Chunk, av![l, n(1.0)], &heap)), 2)
+    } else if k == 2 {
+        (ok(call_bi(BuiltInFunction::Chunk, av![l, n(2.0)], &heap)), 1)
+    } else {
+        (ok(call_bi(BuiltInFunction::Chunk, av![l, n(3.0)], &heap)), 1)
+    };
     match read_list(ch, &heap) {
         Some((m, _)) => assert!(m == want_chunks),
         None => panic!("chunk: not a list"),
@@ -310,7 +315,7 @@ kproof!(cut, 6, fn c14_t_flatten_chunk_roundtrip() {
         Some((2, el)) => assert!(same_value(el[0], n(a)) && same_value(el[1], n(b))),
         _ => panic!("flatten(chunk(l, n)) != l"),
     }
-    kani::cover!(k == 3.0, "reach a chunk size above the length");
+    kani::cover!(k == 3, "reach a chunk size above the length");
     std::mem::forget(heap);
 });
 kproof!(cut, 6, fn c14_t_chunk_zero_and_zip() {
